@@ -559,6 +559,7 @@ void QXmppOutgoingClient::openSession()
     d->bind2Bound.reset();
 
     d->iqManager.onSessionOpened(session);
+    d->c2sStreamManager.onSessionOpened(session);
     d->carbonManager.onSessionOpened(session);
     d->csiManager.onSessionOpened(session);
     Q_EMIT connected(session);
@@ -1370,6 +1371,16 @@ void C2sStreamManager::onStreamFeatures(const QXmppStreamFeatures &features)
 void C2sStreamManager::onStreamClosed()
 {
     m_canResume = false;
+}
+
+void C2sStreamManager::onSessionOpened(const SessionBegin &session)
+{
+    // A session without stream management cannot be resumed, and it replaces any earlier session:
+    // forget the resumption state of that one (it would otherwise be reported for this session
+    // when it ends).
+    if (!session.smEnabled) {
+        m_canResume = false;
+    }
 }
 
 void C2sStreamManager::onSasl2Authenticate(Sasl2::Authenticate &auth, const Sasl2::StreamFeature &feature)
